@@ -182,6 +182,24 @@ def digest(x):
     return hashlib.sha1(repr(x).encode()).hexdigest()[:16]
 
 
+SUFFIX_VARIANTS = ("agree", "swap", "foreign", "none")
+SWAP = {"xyz": ".mol2", "mol2": ".xyz", "cdxml": ".mol2", "sdf": ".xyz", "nonsense": ".mol2"}
+
+
+def suffix_for(fmt, variant):
+    """file name suffix of a path whose content / requested format is `fmt`:
+    agree: .<fmt>; swap: another SUPPORTED suffix; foreign: a suffix nobody supports; none: no suffix"""
+    return {"agree": "." + fmt, "swap": SWAP[fmt], "foreign": ".inp", "none": ""}[variant]
+
+
+def kindsig(cell):
+    k = kindclass(cell["kind"])
+    sv = cell.get("suffix", "agree")
+    if sv == "agree":
+        return k
+    return k + ("(no-suffix)" if sv == "none" else "(suffix-says-otherwise)")
+
+
 # ---- input families ------------------------------------------------------------------------------
 BUNDLED_CDXML = ("substituents.cdxml", "charges_mult.cdxml", "BOX_bridging_fragments.cdxml", "BOX_cores.cdxml", "parser_demo.cdxml", "parser_demo2.cdxml", "BOX_4position_fragments.cdxml")
 
@@ -253,15 +271,29 @@ class Family:
             p = self.dir / f"{name}.{f}"
             p.write_text(self.text[f])
             self.path[f] = p
+            # the same content under names whose suffix says something else / nothing
+            for sv in ("swap", "foreign", "none"):
+                q = self.dir / (f"{name}-holds-{f}" + suffix_for(f, sv))
+                q.write_text(self.text[f])
+                self.path[(f, sv)] = q
+        # a second, different content per format (other molecule count and names): the history cells
+        # overwrite a path with it
+        if name == "pentane_confs" or cdxml == "BOX_bridging_fragments.cdxml":
+            alt = ("dendrobine.mol2", "dendrobine.xyz", "charges_mult.cdxml")
+        else:
+            alt = ("pentane_confs.mol2", "pentane_confs.xyz", "BOX_bridging_fragments.cdxml")
+        self.alt_spec = alt
+        self.alt = {"mol2": (FILES / alt[0]).read_text(), "xyz": (FILES / alt[1]).read_text(), "cdxml": (FILES / alt[2]).read_text()}
 
-    def source(self, kind, fmt):
+    def source(self, kind, fmt, suffix="agree"):
         """-> (argument, closer)"""
+        pth = self.path[fmt] if suffix == "agree" else self.path[(fmt, suffix)]
         if kind == "pathstr":
-            return str(self.path[fmt]), None
+            return str(pth), None
         if kind == "Path":
-            return Path(self.path[fmt]), None
+            return Path(pth), None
         if kind == "stream":
-            s = open(self.path[fmt], "rt")
+            s = open(pth, "rt")
             return s, s
         if kind == "str":
             return self.text[fmt], None
@@ -285,24 +317,29 @@ def reader_cells(order):
                 for fmtmode in ("explicit", "suffix"):
                     if fmtmode == "suffix" and (kind not in ("pathstr", "Path") or func in ("loads", "loads_all")):
                         continue  # only load/load_all document a format deduced from the file suffix
-                    for otype in rot(OTYPES):
-                        for nm in ("none", "given"):
-                            for parser in rot(PARSERS):
-                                yield {"op": "read", "func": func, "fmt": fmt, "fmtmode": fmtmode, "kind": kind, "otype": otype, "name": nm, "parser": parser}
+                    # an explicit format on a path: the suffix of the path agrees, names another supported
+                    # format, names nothing anybody supports, or is absent (the explicit format decides)
+                    svs = SUFFIX_VARIANTS if (fmtmode == "explicit" and kind in ("pathstr", "Path")) else ("agree",)
+                    for sv in svs:
+                        for otype in rot(OTYPES):
+                            for nm in ("none", "given"):
+                                for parser in rot(PARSERS):
+                                    yield {"op": "read", "func": func, "fmt": fmt, "fmtmode": fmtmode, "kind": kind, "suffix": sv, "otype": otype, "name": nm, "parser": parser}
     # cdxml retrieval by key (name not given: which of the two wins is not specified)
     for func in ("load",):
         for kind in ("pathstr", "Path"):
             for otype in rot(OTYPES):
-                yield {"op": "read", "func": func, "fmt": "cdxml", "fmtmode": "explicit", "kind": kind, "otype": otype, "name": "none", "parser": "molli", "key": "first"}
+                for sv in SUFFIX_VARIANTS:
+                    yield {"op": "read", "func": func, "fmt": "cdxml", "fmtmode": "explicit", "kind": kind, "suffix": sv, "otype": otype, "name": "none", "parser": "molli", "key": "first"}
 
 
 def read_sig(cell, symptom):
     if symptom.startswith("raised-"):
         # an exception type nobody documents: identified by (function, source kind, type) - the format,
         # otype and parser of the cell it was first seen in are incidental
-        return f"{cell['func']}|{kindclass(cell['kind'])}:{symptom}"
+        return f"{cell['func']}|{kindsig(cell)}:{symptom}"
     p = "" if cell["parser"] == "molli" else f"|parser={'openbabel' if cell['parser']=='openbabel' else 'unknown'}"
-    return f"{cell['func']}|{fmtclass(cell['fmt'])}|{kindclass(cell['kind'])}|{oclass(cell['otype'])}{p}:{symptom}"
+    return f"{cell['func']}|{fmtclass(cell['fmt'])}|{kindsig(cell)}|{oclass(cell['otype'])}{p}:{symptom}"
 
 
 def applicable_errors(cell):
@@ -335,7 +372,7 @@ def in_domain(cell):
 def call_reader(fam, cell, given):
     func = getattr(ml, cell["func"])
     fmt = cell["fmt"]
-    src, closer = fam.source(cell["kind"], fmt)
+    src, closer = fam.source(cell["kind"], fmt, cell.get("suffix", "agree"))
     kw = {"parser": cell["parser"], "otype": otype_arg(cell["otype"])}
     if cell["name"] == "given":
         kw["name"] = given
@@ -366,7 +403,7 @@ def class_reader(fam, cell, given):
     if fmt == "cdxml":
         if cell["kind"] not in ("pathstr", "Path"):
             return None
-        src, _ = fam.source(cell["kind"], fmt)
+        src, _ = fam.source(cell["kind"], fmt, cell.get("suffix", "agree"))
 
         def thunk():
             cdxf = ml.CDXMLFile(src)
@@ -382,7 +419,7 @@ def class_reader(fam, cell, given):
     meth = getattr(cls, f"{cell['func']}_{fmt}", None)
     if meth is None:
         return None
-    src, closer = fam.source(cell["kind"], fmt)
+    src, closer = fam.source(cell["kind"], fmt, cell.get("suffix", "agree"))
     try:
         return outcome_of(lambda: meth(src, name=name))
     finally:
@@ -411,7 +448,7 @@ def run_reader_cell(ctx, fam, cell, given):
     want_list = cell["func"] in ("load_all", "loads_all")
 
     def viol(symptom, what):
-        ctx.violation(read_sig(cell, symptom), f"ml.{cell['func']}({cell['kind']}, fmt={cell['fmt']!r}/{cell['fmtmode']}, otype={cell['otype']}, name={cell['name']}, parser={cell['parser']}): {what}", case, repro_reader(fam, cell, given))
+        ctx.violation(read_sig(cell, symptom), f"ml.{cell['func']}({cell['kind']} [suffix {cell.get('suffix', 'agree')}], fmt={cell['fmt']!r}/{cell['fmtmode']}, otype={cell['otype']}, name={cell['name']}, parser={cell['parser']}): {what}", case, repro_reader(fam, cell, given))
 
     if got[0] == "exc":
         ctx.outcome(("exc", got[1]))
@@ -513,7 +550,9 @@ def writer_cells(order):
                             for fmtmode in ("explicit", "suffix"):
                                 if fmtmode == "suffix" and target not in ("pathstr", "Path"):
                                     continue
-                                yield {"op": "write", "func": "dump", "fmt": fmt, "fmtmode": fmtmode, "kind": target, "otype": obj, "name": nm, "parser": writer, "mode": mode}
+                                svs = SUFFIX_VARIANTS if (fmtmode == "explicit" and target in ("pathstr", "Path")) else ("agree",)
+                                for sv in svs:
+                                    yield {"op": "write", "func": "dump", "fmt": fmt, "fmtmode": fmtmode, "kind": target, "suffix": sv, "otype": obj, "name": nm, "parser": writer, "mode": mode}
 
 
 def write_errors(cell):
@@ -563,10 +602,10 @@ def run_writer_cell(ctx, fam, cell, given, objcache):
     def viol(symptom, what):
         p = "" if cell["parser"] == "molli" else f"|writer={'openbabel' if cell['parser']=='openbabel' else 'unknown'}"
         if symptom.startswith("raised-"):
-            sig = f"{func}|{kindclass(kind)}:{symptom}"
+            sig = f"{func}|{kindsig(cell)}:{symptom}"
         else:
-            sig = f"{func}|{fmtclass(fmt) if fmt in FMT_SUPPORTED_WRITE else 'unsupported'}|{kindclass(kind)}|{oclass(cell['otype'])}{p}:{symptom}"
-        ctx.violation(sig, f"ml.{func}({cell['otype']} -> {kind}, fmt={fmt!r}/{cell['fmtmode']}, writer={cell['parser']}, mode={cell.get('mode')}): {what}", case, repro_writer(fam, cell))
+            sig = f"{func}|{fmtclass(fmt) if fmt in FMT_SUPPORTED_WRITE else 'unsupported'}|{kindsig(cell)}|{oclass(cell['otype'])}{p}:{symptom}"
+        ctx.violation(sig, f"ml.{func}({cell['otype']} -> {kind} [suffix {cell.get('suffix', 'agree')}], fmt={fmt!r}/{cell['fmtmode']}, writer={cell['parser']}, mode={cell.get('mode')}): {what}", case, repro_writer(fam, cell))
 
     ctx.count(evaluations=1, transitions=1, traces=1)
 
@@ -600,7 +639,7 @@ def run_writer_cell(ctx, fam, cell, given, objcache):
     # ---- dump ----
     tdir = fam.dir / "out"
     tdir.mkdir(exist_ok=True)
-    tpath = tdir / f"target.{fmt}"
+    tpath = tdir / ("target" + suffix_for(fmt, cell.get("suffix", "agree")))
     tpath.write_text(PREFIX)
     stream = None
     if kind == "pathstr":
@@ -706,7 +745,13 @@ def run_family(ctx, part):
     fam = Family(ctx, spec)
     try:
         ncell = 0
-        if sel == "write":
+        if sel == "history":
+            from mc.props import c09_hist
+
+            for cell in c09_hist.history_cells(ctx.seed):
+                c09_hist.run_history_cell(ctx, fam, cell, given)
+                ncell += 1
+        elif sel == "write":
             objcache = {}
             for cell in writer_cells(ctx.seed):
                 run_writer_cell(ctx, fam, cell, given, objcache)
@@ -729,6 +774,9 @@ def run(ctx):
         "x {path str, Path, open stream, file content} x {'molecule','ensemble',Structure,Molecule,ConformerEnsemble} x {name None, given} "
         "x {parser molli, openbabel, unknown} and {dump,dumps} x formats x {path str, Path, open file stream, StringIO | returned string} "
         "x {mode a, w} x {Molecule, Structure, ConformerEnsemble object} x {named, renamed} x {writer molli, openbabel, unknown}, per input family; "
+        "path cells with an explicit format additionally x {suffix agrees, suffix names another supported format, unsupported suffix, no suffix}; "
+        "plus HISTORY cells (c09_hist): every entry point called twice with a change in between (same path overwritten with other content, "
+        "twin paths, result edited by the caller, str then Path, same relative path after chdir; two dumps into one target in every mode pair); "
         "every cell executed on the real entry point; a cell is non-trivial when it is a supported cell in which both the entry point and the "
         "class method produced a value and the two were compared by the harness's structural snapshot (readers) / character by character (writers)"
     )
@@ -739,6 +787,8 @@ def run(ctx):
         "openbabel is %s in this environment: cells that need it are only required to raise ImportError" % ("installed - those cells are skipped" if HAVE_OPENBABEL else "not installed"),
         "cdxml has no class method on Molecule: the class-level codec is CDXMLFile (first fragment for load, every fragment for load_all, cdxf[key] for key=); key= together with name= is not enumerated (which wins is unspecified)",
         "after a dump that raises a documented error the target file's content is not examined (the property does not speak about it); a caller's stream must still be open",
+        "an explicit fmt decides, the suffix of a path is only consulted when fmt is None (reader.py 'Default format is deduced from the file suffix', writer.py 'it can also be automatically guessed from the extension')",
+        "history cells demand nothing new: the second call must equal the class method applied at that moment; handing out the identical object twice is not by itself a violation, only a visible difference is",
         "dump/dumps kwargs pass-through and the `key` argument of the writers are not part of the matrix",
     ]
     fams = thorough_families() if ctx.thorough else quick_families()
@@ -751,7 +801,13 @@ def run(ctx):
     wc = list(writer_cells(ctx.seed))
     for c in (rc[0], rc[len(rc) // 3], rc[2 * len(rc) // 3], rc[-1], wc[0], wc[len(wc) // 2], wc[-1]):
         ctx.sample({"family": fams[0][0], "cell": c})
-    ctx.pmap(run_family, [(f, sel) for f in fams for sel in READERS + ("write",)])
+    from mc.props import c09_hist
+
+    ctx.bound["history_cells_per_family"] = sum(1 for _ in c09_hist.history_cells(0))
+    hc = list(c09_hist.history_cells(ctx.seed))
+    ctx.samples[-1:] = []  # keep room for a history cell among the samples
+    ctx.sample({"family": fams[0][0], "cell": hc[len(hc) // 2]})
+    ctx.pmap(run_family, [(f, sel) for f in fams for sel in READERS + ("write", "history")])
 
 
 def replay(ctx, case):
@@ -761,6 +817,10 @@ def replay(ctx, case):
         cell = case["cell"]
         if cell["op"] == "read":
             run_reader_cell(ctx, fam, cell, case["given"])
+        elif cell["op"].startswith("hist-"):
+            from mc.props import c09_hist
+
+            c09_hist.run_history_cell(ctx, fam, cell, case["given"])
         else:
             run_writer_cell(ctx, fam, cell, case["given"], {})
     finally:
